@@ -80,7 +80,11 @@ EMBEDDINGS = {
     "big": Emb("big", 1000),
     "tiny": Emb("tiny", F(1, 1000)),
     "off": Emb("off", F(1, 10), F(373, 10)),
+    # opt-in magnitudes (used where a check says so): FRAME's AREA tolerance is sqrt(distance tolerance), which does not
+    # scale like an area -- at 1e-6 units it exceeds the area of a lattice cell, at 1e9 units absolute slacks become visible
+    "micro": Emb("micro", F(1, 10 ** 6)),
+    "huge": Emb("huge", 10 ** 9),
 }
 ORIGIN0 = ["int", "flt", "half", "dec", "third", "big", "tiny"]
 ALL = ORIGIN0 + ["off"]
-EXACT = {"int", "flt", "half", "big"}  # every coordinate is a dyadic rational: float arithmetic on them is exact
+EXACT = {"int", "flt", "half", "big", "huge"}  # every coordinate is a dyadic rational: float arithmetic on them is exact
